@@ -66,6 +66,16 @@ pub fn compute_corpus() -> Vec<Opts> {
     f.cfg.fallback_to_usage = true;
     f.cfg.version = Some(DocSpec::plain("0.0.1"));
     out.push(f);
+    // multi-paragraph texts: the short and the full help differ, run() must print the one asked for
+    let mut mp = Opts::new(P::Seq(vec![P::Switch(Names::both('m', "multi").help("first paragraph\n\nsecond paragraph only in the full help")), P::arg(Names::long("num"), Ty::U32).opt()]));
+    mp.cfg.descr = Some(DocSpec::plain("short description\n\nlong description"));
+    mp.cfg.header = Some(DocSpec::plain("header one\n\nheader two"));
+    mp.cfg.footer = Some(DocSpec::plain("footer one\n\nfooter two"));
+    out.push(mp);
+    // fallback_to_usage where a line can be consumed completely and still fail
+    let mut fu = Opts::new(P::Seq(vec![P::Switch(Names::short('a')), P::arg(Names::both('b', "beta"), Ty::Os)]));
+    fu.cfg.fallback_to_usage = true;
+    out.push(fu);
     let mut h = Opts::new(P::Seq(vec![P::Switch(Names::short('a')), P::Guard(P::arg(Names::long("num"), Ty::U32).bx(), GuardK::Lt10).opt()]));
     h.cfg.help_names = Some(Names { shorts: vec!['?'], longs: vec!["ayuda".into()], envs: vec![], help: None, long_first: false });
     out.push(h);
